@@ -29,7 +29,7 @@ ASSUMPTIONS = [
     "general workloads use to-dates only where own-date order and instant order agree across the cut; the inverted region is known finding KF1, exercised by its committed reproducer",
 ]
 SETTINGS: Dict[str, Dict[str, Any]] = {
-    "quick": {"cases": 1000, "cli_cases": 8, "budget_s": 50, "minimums": {"windows_checked": 3000, "nontrivial": 600, "bound_on_transaction_date": 800, "cli_pairs": 4}},
+    "quick": {"cases": 1000, "cli_cases": 32, "budget_s": 50, "minimums": {"windows_checked": 3000, "nontrivial": 600, "bound_on_transaction_date": 800, "cli_pairs": 4}},
     "thorough": {"cases": 40000, "cli_cases": 200, "budget_s": 420, "minimums": {"windows_checked": 150000, "nontrivial": 30000, "bound_on_transaction_date": 40000, "cli_pairs": 100}},
 }
 PROFILES = [
